@@ -12,6 +12,17 @@
 (* strings or pointers; two spellings that the comparator calls equal are  *)
 (* ONE key here).                                                          *)
 (*                                                                         *)
+(* Identity and recycled nodes.  The identity belongs to the INSERTION,    *)
+(* not to the memory of the node: a node that was taken out with           *)
+(* no_dispose (set_remove(.., 1) / set_clear(.., 1)) has been handed back  *)
+(* to the caller and has NOT been cleaned up; that identity stays in       *)
+(* `kept` and must never be cleaned up by the set.  If the caller inserts  *)
+(* the same node object again (src/config.c moves nodes between sets that  *)
+(* way) it is a NEW element with a fresh identity, to be cleaned up        *)
+(* exactly once when that insertion is removed, replaced or cleared with   *)
+(* disposal -- whatever its l/r/prev/next fields held when it was handed   *)
+(* in (the contract does not know them; Splay.tla InsertIgnoresStale).     *)
+(*                                                                         *)
 (* Every operation is a pure operator  XxxR(mm, ...)  that yields the new  *)
 (* map, the result the caller must see, and the bag of cleanup calls the   *)
 (* call must make.  The actions below, Splay.tla (refinement) and          *)
